@@ -18,6 +18,8 @@ LEVEL = "model_checking"
 
 SCALES = [{"search": 300, "calls": 3000, "size": 30000000, "depth": 300, "recursion": 400},
           {"search": 3000, "calls": 30000, "size": 60000000, "depth": 300, "recursion": 400}]
+# the property's premise is "search limit and call limit configured": the same inputs also run without a size limit
+SCALE_B = {"search": 300, "calls": 3000, "depth": 300, "recursion": 400}
 WATCHDOG_MS = 12000
 
 
@@ -67,7 +69,10 @@ def pipelines(chk, tier, seed, rnd):
             del batch[:]
     for c in cases:
         if c["verdict"]["v"] == "diverge":
-            for si, lim in enumerate(SCALES if tier == "thorough" or len(jobs) % 4 == 0 else SCALES[:1]):
+            lims = list(SCALES if tier == "thorough" or len(jobs) % 4 == 0 else SCALES[:1])
+            if tier == "thorough" or len(jobs) % 3 == 0:
+                lims.append(SCALE_B)
+            for si, lim in enumerate(lims):
                 j = {"id": "pd%d_%d" % (len(jobs), si), "src": "let v0 = %s;\n" % c["src"], "observe": ["v0"], "limits": lim, "timeout_ms": WATCHDOG_MS, "max_elems": 64}
                 jobs.append(j)
                 meta[j["id"]] = [c]
@@ -213,8 +218,54 @@ NUMERIC = [
 ]
 
 
+def degenerate():
+    """adaptors with zero / negative / huge parameters on sources that never end: windows that never fill, chunks of
+    nothing, negative counts"""
+    out = []
+    srcs = ["count().to_generator()", "[7].to_generator().repeat()", "successors(1, (x: int) -> {x})", "count()", "range(10**15)"]
+    ads = ["windows(0)", "windows(-1)", "windows(2000000)", "chunks(0)", "chunks(-1)", "chunks(2000000)", "take(-1)", "skip(-1)", "skip(2000000)",
+           "take(2000000)", "repeat(0)", "repeat(-1)", "enumerate(0, 0)", "enumerate(0, -1)", "nth(-1, (x: int) -> {true})", "nth(2000000, (x: int) -> {true})",
+           "get(-1)", "get(2000000)"]
+    for a in srcs:
+        for b in ads:
+            tail = "" if b.startswith(("nth", "get")) else ".take(1).to_array().len()"
+            out.append("%s.%s%s" % (a, b, tail))
+            if not tail == "":
+                out.append("%s.%s.get(0)" % (a, b))
+    return out
+
+
+SMALL_INTS = ["0", "1", "(-1)", "(-1234)", "2"]
+
+
+def small_int_sweep(tier):
+    """every int parameter of every root-scope signature set to 0, +-1, a negative number: loops whose bound is such an argument"""
+    out = []
+    for sig in surface.static_signatures():
+        name = sig["name"]
+        if name.startswith("__") or name in surface.SKIP or name in ("now",):
+            continue
+        try:
+            pts, _ = surface.instantiate(sig)
+            canon = [surface.inhabitants(p)[0] for p in pts]
+        except surface.NoInhabitant:
+            continue
+        nreq = sum(1 for _, r in sig["params"] if r)
+        for k in sorted({nreq, len(pts)}):
+            for i in range(k):
+                if surface.render_type(pts[i]) != "int":
+                    continue
+                for a in SMALL_INTS:
+                    v = list(canon[:k])
+                    v[i] = a
+                    out.append((sig["text"], "%s(%s)" % (name, ", ".join(v))))
+    return list(dict.fromkeys(out))
+
+
 def sweep(chk, tier, seed, rnd):
     cases = [("numeric/adversarial", e) for e in NUMERIC] + surface_sweep(tier, rnd)
+    extra_b = [("degenerate", e) for e in degenerate()] + small_int_sweep(tier)
+    cases += [("degenerate", e) for e in degenerate()]
     jobs, meta = [], {}
     prelude = "fn spin(n: int)->int { if(n < 0, 0, spin(n + 1)) }\nfn deep(n: int)->int { if(n < 0, 0, 1 + deep(n + 1)) }\nfn ping(n: int)->int { pong(n + 1) }\nfn pong(n: int)->int { ping(n + 1) }\n"
     cases += [("recursion", "spin(0)"), ("recursion", "deep(0)"), ("recursion", "ping(0)"), ("recursion", "count().map(spin).get(3)"),
@@ -225,7 +276,13 @@ def sweep(chk, tier, seed, rnd):
                  "perms": {"regex": True}}
             jobs.append(j)
             meta[j["id"]] = (label, e)
-    res = vf.run_jobs(jobs, "c10-sweep", timeout_ms=WATCHDOG_MS)
+    # without a size limit (fewer workers: a runaway allocation is stopped by the watchdog, not by a limit)
+    for i, (label, e) in enumerate(extra_b):
+        j = {"id": "b%d" % i, "src": "let v0 = %s;\n" % e, "observe": ["v0"], "limits": SCALE_B, "timeout_ms": WATCHDOG_MS, "max_elems": 4, "perms": {"regex": True}}
+        jobs.append(j)
+        meta[j["id"]] = (label, e)
+    res = vf.run_jobs([j for j in jobs if not j["id"].startswith("b")], "c10-sweep", timeout_ms=WATCHDOG_MS)
+    res.update(vf.run_jobs([j for j in jobs if j["id"].startswith("b")], "c10-sweep-b", threads=6, timeout_ms=WATCHDOG_MS))
     stats = {"stopped_ok": 0, "stopped_violation": 0, "rejected_by_compiler": 0, "panics": 0}
     slow = []
     for j in jobs:
@@ -239,7 +296,7 @@ def sweep(chk, tier, seed, rnd):
         chk.nontrivial(e + json.dumps(j["limits"], sort_keys=True))
         if not terminated(oc):
             chk.violation("%s: %s did not stop under limits %s (%s)" % (label, e, json.dumps(j["limits"]), oc), {"kind": "sweep", "source": j["src"], "limits": j["limits"]},
-                          finding_key="hang:" + (label.split("(")[0] if label not in ("numeric/adversarial", "recursion") else e))
+                          finding_key="hang:" + (label.split("(")[0] if label not in ("numeric/adversarial", "recursion", "degenerate") else e))
             continue
         if oc.endswith("panic"):
             stats["panics"] += 1
@@ -249,7 +306,7 @@ def sweep(chk, tier, seed, rnd):
             stats["stopped_violation"] += 1
         if o.get("wall_ms", 0) > 5000:
             slow.append({"expr": e, "wall_ms": o.get("wall_ms"), "outcome": oc})
-    chk.part("sweep", cases=len(cases), **stats)
+    chk.part("sweep", cases=len(cases), without_size_limit=len(extra_b), **stats)
     if slow:
         chk.cov["slow_but_bounded"] = slow[:20]
     chk.sample({"sweep": cases[len(cases) // 2][1]})
